@@ -46,13 +46,15 @@ def isfifo(p):
 
 
 def fs_facts(ctx, p):
-    """Assumed file-system axioms, instantiated for the path term p (quantifier free): isdir => exists and not isfile; isfile => exists."""
+    """Assumed file-system axioms, instantiated for the path term p (quantifier free): isdir => exists and not isfile;
+    isfile => exists; a path that does not exist is neither readable, writeable nor executable."""
     seen = ctx.ghost.setdefault("fs_facts", set())
     if p.get_id() in seen:
         return
     seen.add(p.get_id())
     ctx.assume(z3.Implies(fs_isdir(p), z3.And(fs_exists(p), z3.Not(fs_isfile(p)))))
     ctx.assume(z3.Implies(fs_isfile(p), fs_exists(p)))
+    ctx.assume(z3.Implies(z3.Not(fs_exists(p)), z3.And(z3.Not(fs_r(p)), z3.Not(fs_w(p)), z3.Not(fs_x(p)))))
 
 
 def unfold_nearest(ctx, p):
@@ -335,6 +337,138 @@ def pi_raises(ctx, st, exc):
         ctx.oblige("raises", f"only-PathError-or-mode-ValueError(got {exc.cls}@{exc.origin})", False)
 
 
+# ------------------------------------------------------------------------------------- change_to_path_dir
+def ctx_var(ctx, name, initial):
+    """ContextVar model: get / set (returns a token remembering the old value) / reset(token)."""
+    ctx.ghost[name] = initial
+    return {
+        f"{name}.get": lambda c, a, k: c.ghost[name],
+        f"{name}.set": lambda c, a, k: (lambda old: (c.ghost.__setitem__(name, a[0]), Rec("Token", attrs={"old": old, "var": name}))[1])(c.ghost[name]),
+        f"{name}.reset": lambda c, a, k: c.ghost.__setitem__(name, a[0].attrs["old"]),
+    }
+
+
+def same(a, b):
+    """Equality of two optional strings."""
+    if a is None or b is None:
+        return a is None and b is None
+    return lift(a) == lift(b)
+
+
+def cd_setup(ctx):
+    scenario = ctx.choose(4, "scenario")  # bit 0: path given (local file/dir), bit 1: current_path_dir already set
+    cpd0 = z3.String("current_path_dir0") if scenario & 2 else None
+    cwd0 = z3.String("cwd0")
+    ctx.assume(z3.Length(cwd0) > 0)  # os.getcwd() never returns ''
+    calls = ctx_var(ctx, "current_path_dir", cpd0)
+    ctx.ghost["cwd"] = cwd0
+    bag = CharBag(ctx, "path.mode", ALPHA)
+    absolute = z3.String("path.absolute")
+    path = Rec("Path", attrs={"_url_data": None, "is_url": False, "is_fsspec": False, "absolute": absolute, "mode": bag}) if scenario & 1 else None
+    # precondition: path.absolute is an absolute local path, so it and its dirname are non-empty
+    ctx.assume(z3.Length(absolute) > 0)
+    ctx.assume(z3.Length(dirname(absolute)) > 0)
+    calls.update({
+        "os.getcwd": lambda c, a, k: c.ghost["cwd"],
+        "os.chdir": lambda c, a, k: (c.ghost.__setitem__("cwd", lift(a[0])), c.event("chdir", lift(a[0])))[0] and None,
+        "os.path.abspath": lambda c, a, k: abspath(lift(a[0])),
+        "os.path.dirname": lambda c, a, k: dirname(lift(a[0])),
+    })
+
+    def at_yield(ctx_, interp, value, env):
+        ctx_.ghost["yielded"] = True
+        if path is None:
+            ctx_.oblige("yield", "no-path: cwd and current_path_dir as before", z3.And(ctx_.ghost["cwd"] == cwd0, zb(same(ctx_.ghost["current_path_dir"], cpd0))))
+            return
+        target = z3.If(bag.has("d"), absolute, dirname(absolute))
+        ctx_.oblige("yield", "current_path_dir==directory-of-the-path", zb(same(ctx_.ghost["current_path_dir"], target)))
+        ctx_.oblige("yield", "cwd==abspath(directory-of-the-path)-unless-empty", z3.If(z3.Length(target) > 0, ctx_.ghost["cwd"] == abspath(target), ctx_.ghost["cwd"] == cwd0))
+
+    return Setup(env={"path": path}, calls=calls, hooks={"yield": at_yield}, data={"cwd0": cwd0, "cpd0": cpd0})
+
+
+def zb(x):
+    return z3.BoolVal(x) if isinstance(x, bool) else x
+
+
+def cd_restored(ctx, st, label):
+    ctx.oblige("post", f"cwd-restored({label})", ctx.ghost["cwd"] == st.data["cwd0"])
+    ctx.oblige("post", f"current_path_dir-restored({label})", zb(same(ctx.ghost["current_path_dir"], st.data["cpd0"])))
+    ctx.oblige("post", f"yielded-exactly-once({label})", len([e for e in ctx.events if e[0] == "yield"]) == 1)
+
+
+def cd_post(ctx, st, result):
+    cd_restored(ctx, st, "normal-exit")
+
+
+def cd_raises(ctx, st, exc):
+    if exc.cls == "<Any>":
+        cd_restored(ctx, st, "exception-from-the-body")
+    else:
+        ctx.oblige("raises", f"no-own-exception(got {exc.cls}@{exc.origin})", False)
+
+
+# ------------------------------------------------------------------------------------- call sites: nested loads run inside change_to_path_dir(file)
+def cm_change_to_path_dir(ctx):
+    """Context-manager contract used at call sites: records enter/exit events; never swallows exceptions."""
+    def enter(ctx_, args, kwargs):
+        ctx_.event("enter-dir", args[0])
+        ctx_.ghost.setdefault("dir_stack", []).append(args[0])
+        return None
+
+    def exit_(ctx_, token, exc):
+        ctx_.event("exit-dir")
+        ctx_.ghost["dir_stack"].pop()
+        return False
+
+    return (enter, exit_)
+
+
+def pp_setup(ctx):
+    fpath = Rec("Path", attrs={}, methods={"get_content": lambda c, s_, a, k: (c.event("read", s_), z3.String("cfg_str"))[1]})
+    cfg_path = z3.String("cfg_path")
+
+    def path_ctor(ctx_, args, kwargs):
+        if args[0] is not cfg_path:
+            raise Unsupported("Path() of something else than cfg_path")
+        ctx_.event("Path", kwargs.get("mode"))
+        if ctx_.choose(2, "Path-raises") == 1:
+            raise PyRaise(ExcVal("PathError", origin="Path()"))
+        return fpath
+
+    def parse_string(ctx_, self, args, kwargs):
+        ctx_.event("parse_string", args[0], tuple(ctx_.ghost.get("dir_stack", [])))
+        if ctx_.choose(2, "parse_string-raises") == 1:
+            raise PyRaise(ExcVal("ArgumentError", origin="parse_string"))
+        return Rec("Namespace")
+
+    self = Rec("ArgumentParser", methods={"parse_string": parse_string})
+    calls = {"Path": path_ctor, "get_config_read_mode": lambda c, a, k: "fr", "os.path.basename": lambda c, a, k: z3.String("basename")}
+    env = {"self": self, "cfg_path": cfg_path, "ext_vars": None, "env": None, "defaults": True, "with_meta": None, "kwargs": {}}
+    return Setup(env=env, calls=calls, cms={"change_to_path_dir": cm_change_to_path_dir(ctx)}, data={"fpath": fpath}, drop_calls=("self._logger.debug",))
+
+
+def pp_check(ctx, st, label):
+    fpath = st.data["fpath"]
+    loads = [e for e in ctx.events if e[0] == "parse_string"]
+    for e in loads:
+        ctx.oblige("proto", f"nested-parse-runs-inside-change_to_path_dir(config file)[{label}]", len(e[2]) == 1 and e[2][0] is fpath)
+    enters = len([e for e in ctx.events if e[0] == "enter-dir"])
+    exits = len([e for e in ctx.events if e[0] == "exit-dir"])
+    ctx.oblige("proto", f"every-enter-has-its-exit[{label}]", enters == exits)
+    return loads
+
+
+def pp_post(ctx, st, result):
+    loads = pp_check(ctx, st, "return")
+    ctx.oblige("post", "config-was-parsed-exactly-once", len(loads) == 1)
+
+
+def pp_raises(ctx, st, exc):
+    pp_check(ctx, st, "raise")
+    ctx.oblige("raises", f"only-from-Path-or-parse_string(got {exc.cls}@{exc.origin})", exc.origin in ("Path()", "parse_string"))
+
+
 UNITS = [
     Unit("C19", "jsonargparse._util:Path._check_mode", cm_setup, cm_post, cm_raises, expect_cover=("return", "raise:ValueError"),
          replayer="replayers.c19:replay_check_mode",
@@ -342,13 +476,22 @@ UNITS = [
                   "Counter(str).items() yields one (char, multiplicity) pair per distinct character (assumed contract of Counter)"]),
     Unit("C19", "jsonargparse._util:Path.__init__", pi_setup, pi_post, pi_raises, expect_cover=("return", "raise:PathError"),
          replayer="replayers.c19:replay_path_init", split=8,
-         trusted=["file system = uninterpreted predicates exists/isdir/isfile/st_mode/access_R/W/X of the path string, stable during the call (A3); isdir => exists and not isfile; isfile => exists",
+         trusted=["file system = uninterpreted predicates exists/isdir/isfile/st_mode/access_R/W/X of the path string, stable during the call (A3); isdir => exists and not isfile; isfile => exists; not exists => no access",
                   "os.stat(p) raises FileNotFoundError iff not exists(p)",
                   "os.path.expanduser/isabs/join/realpath, os.fspath (identity on str), os.getcwd are deterministic functions",
                   "precondition: str path, no '://' in path/cwd/current_path_dir/getcwd, no file: scheme, skip_check off (URL, fsspec and Path-from-Path branches are outside the contract)"]),
 ]
 
-VERIFIED_CALLEES = ("self._check_mode",)
+UNITS += [
+    Unit("C19", "jsonargparse._util:change_to_path_dir", cd_setup, cd_post, cd_raises, expect_cover=("return", "raise:<Any>"),
+         trusted=["ContextVar.get/set/reset behave as a variable with a token remembering the previous value",
+                  "os.chdir(d) on the directory of an accepted path does not raise and makes os.getcwd() return d (A3)",
+                  "the with-body leaves cwd and current_path_dir as it found them (nested uses: by this same contract)",
+                  "precondition: path is None or a local Path whose .absolute and its dirname are non-empty (URL/fsspec paths outside the contract)"]),
+    Unit("C19", "jsonargparse._core:ArgumentParser.parse_path", pp_setup, pp_post, pp_raises, expect_cover=("return", "raise:PathError", "raise:ArgumentError")),
+]
+
+VERIFIED_CALLEES = ("self._check_mode", "change_to_path_dir")
 LEVEL = "other"
 TECHNIQUE = "contract-based deductive verification (VCs from the real AST, z3/cvc5) + bounded run-time contract checking"
 LEVEL_TEXT = "under construction"
